@@ -1,6 +1,6 @@
 """C20 configuration for ./check (see checks/propcfg.py for the keys)."""
 CFG = {
-    "modules": ["VaxisModel.Props.C20", "VaxisModel.Props.C20Ext", "VaxisModel.Props.C20Pixels", "VaxisModel.Witness.F51", "VaxisModel.Witness.F52", "VaxisModel.Witness.F120", "VaxisModel.Witness.F220"],
+    "modules": ["VaxisModel.Props.C20", "VaxisModel.Props.C20Ext", "VaxisModel.Props.C20Pixels", "VaxisModel.Props.C20Compose", "VaxisModel.Witness.F51", "VaxisModel.Witness.F52", "VaxisModel.Witness.F120", "VaxisModel.Witness.F220"],
     "extractors": ["C20", "C11"],
     "drivers": ["C20"],
     "stateful": True,
